@@ -202,7 +202,7 @@ type twin struct {
 
 // livelockLimit bounds the document access checks of ONE request on the real node. A case holds fewer than 40
 // documents; a request that needs more than this many checks is not making progress (deterministic, no wall clock).
-const livelockLimit = 5000
+const livelockLimit = 1000
 
 const livelockMarker = "C10 livelock guard"
 
@@ -1305,9 +1305,15 @@ func openSub(n *hx.Node, r int, q string, sentinel string) (*subReader, context.
 func (s *subReader) finish(cancel context.CancelFunc, what string) []hx.Result {
 	select {
 	case <-s.seen:
-	case <-time.After(60 * time.Second):
+	case <-time.After(10 * time.Second):
 		cancel()
-		hx.Harnessf("%s: the sentinel document was not delivered within 60 s", what)
+		s.mu.Lock()
+		l := []string{}
+		for _, m := range s.msgs {
+			l = append(l, show(m))
+		}
+		s.mu.Unlock()
+		hx.Harnessf("%s: the sentinel document was not delivered within 60 s; messages so far: %s", what, strings.Join(l, " ; "))
 	}
 	cancel()
 	select {
